@@ -36,6 +36,7 @@ type liveSub struct {
 	cells []string
 	cost  bool
 	boom  bool
+	timed bool
 }
 
 type history struct {
@@ -84,7 +85,7 @@ func genHistory(r *rand.Rand, g *wsclient.Gen, seed int64) *history {
 		}
 		h.Cfg.Middlewares = append(h.Cfg.Middlewares, m)
 	}
-	for _, c := range []string{"n", "s", "obj", "items", "plain", "nums", "grid", "ku", "pu", "kulist", "ulist", "slow", "exp", "boom", "kids:0", "kids:1", "pick", "mu", "mulist", "lq", "item:0", "item:1", "item:2", "item:3"} {
+	for _, c := range []string{"n", "s", "obj", "items", "plain", "nums", "grid", "ku", "pu", "kulist", "ulist", "slow", "exp", "boom", "kids:0", "kids:1", "pick", "mu", "mulist", "lq", "clock", "item:0", "item:1", "item:2", "item:3"} {
 		if r.Intn(3) == 0 {
 			h.Cfg.Modes[c] = r.Intn(3)
 		}
@@ -118,17 +119,18 @@ func genHistory(r *rand.Rand, g *wsclient.Gen, seed int64) *history {
 		sort.Strings(ks)
 		return ks
 	}
-	forceCost, forceBoom := false, false
+	forceCost, forceBoom, forceTimed := false, false, false
 	sub := func(wait bool) wsclient.Step {
 		seq++
 		tag := fmt.Sprintf("t%d", seq)
 		cost := forceCost || r.Intn(4) == 0
 		opts := wsclient.QueryOpts{Slow: !forceCost, Boom: forceBoom || (!forceCost && r.Intn(4) == 0), Cost: cost}
 		opts.LQ = opts.Boom && r.Intn(2) == 0
+		opts.Timed = forceTimed || r.Intn(6) == 0
 		var q string
 		var cells []string
 		var vars map[string]interface{}
-		if !forceCost && !forceBoom && r.Intn(3) == 0 {
+		if !forceCost && !forceBoom && !forceTimed && r.Intn(3) == 0 {
 			opts.Boom, opts.LQ = false, false // a re-used document must not bring a failing field into a later subscription
 			q, vars, cells = g.GenVarQuery(tag, opts)
 		} else {
@@ -141,7 +143,7 @@ func genHistory(r *rand.Rand, g *wsclient.Gen, seed int64) *history {
 			}
 		}
 		id := free[r.Intn(len(free))]
-		live[id] = &liveSub{tag: tag, cells: cells, cost: cost, boom: opts.Boom}
+		live[id] = &liveSub{tag: tag, cells: cells, cost: cost, boom: opts.Boom, timed: opts.Timed}
 		return wsclient.Step{Kind: "sub", ID: id, Tag: tag, Query: q, Vars: vars, Wait: wait, PauseUS: pause(r)}
 	}
 	n := 14 + r.Intn(26)
@@ -189,6 +191,21 @@ func genHistory(r *rand.Rand, g *wsclient.Gen, seed int64) *history {
 				}
 			}
 			h.Steps = append(h.Steps, wsclient.Step{Kind: "sync", PauseUS: 2 * d})
+		case x >= 37 && x < 40: // the deadline of time-driven data passes DURING a re-run: between the resolver's judgement and its InvalidateAt
+			have := false
+			for _, ls := range live {
+				have = have || ls.timed
+			}
+			if !have {
+				if len(live) >= 4 {
+					continue
+				}
+				forceTimed = true
+				h.Steps = append(h.Steps, sub(true))
+				forceTimed = false
+			}
+			h.Steps = append(h.Steps, wsclient.Step{Kind: "idle"},
+				wsclient.Step{Kind: "gate", Cell: "clock", Phase: 0, Op: g.ClockTick(), Landing: []int{g.ClockCross()}, PauseUS: 1000 + r.Intn(2000)})
 		case x >= 32 && x < 37: // an object with an Expensive field leaves the result, changes, comes back, changes again
 			have := false
 			for _, ls := range live {
@@ -411,7 +428,7 @@ func TestCheck(t *testing.T) {
 	log.SetOutput(io.Discard)
 	run := vlib.Start(t, "C02", "exploration")
 	defer run.Finish()
-	run.Rule("histories over one websocket connection (scripted JSONSocket) against a schemabuilder schema over a mutable store: 14-40 steps of subscribe (ids from a pool of 5, reused after unsubscribe; 1-6 fields over scalars, nullable object, keyed lists (nested), unkeyed object/scalar/nested lists, unions with and without key and a union mixing a key-less and a keyed member, union lists, a live-query field (public reactive.Cache, registers then may fail), a nullable keyed object, a keyed list of BY-VALUE structs holding a slice (non-comparable sources) with an Expensive field, slow and Expensive fields - also on list elements and on the nullable object, with interned source objects so that the reactive cache can hit), " +
+	run.Rule("histories over one websocket connection (scripted JSONSocket) against a schemabuilder schema over a mutable store: 14-40 steps of subscribe (ids from a pool of 5, reused after unsubscribe; 1-6 fields over scalars, nullable object, keyed lists (nested), unkeyed object/scalar/nested lists, unions with and without key and a union mixing a key-less and a keyed member, union lists, a live-query field (public reactive.Cache, registers then may fail), Expensive object-valued fields reached on the same (interned) item along two paths under one response key with different sub-selections / arguments, a time-driven field on a harness-advanced logical clock whose deadline may pass between the resolver's judgement and its InvalidateAt/InvalidateAfter call (gate step), a nullable keyed object, a keyed list of BY-VALUE structs holding a slice (non-comparable sources) with an Expensive field, slow and Expensive fields - also on list elements and on the nullable object, with interned source objects so that the reactive cache can hit), " +
 		"one third of the subscriptions use a document with variables ($tag, and $k selecting which cell a field reads), whose text is re-used verbatim by later subscriptions with different variable values, subscribe with a live id, unsubscribe (live / unknown id), mutate (own id namespace), echo, direct writes, write bursts, gate steps (a resolver of an in-flight run is held after AddDependency or after reading while 1-3 further writes, optionally an unsubscribe or a mutation, land), leave/change/return/change sequences for one item (out of the keyed list or the nullable object and back), 0/1/3/5/6/7/9 pass-through middlewares registered with conn.Use (some pausing before/after next), in half of the histories a final step in which the last change of a (mostly Strobe-notified) cell lands while a re-run that has already read it is in flight, transient resolver failures on re-runs (plain error, safe error, errors wrapping context.Canceled / DeadlineExceeded of a resolver-owned context, safe error around one) followed by recovery, unsubscribe-all sent a fraction of the write-then-read delay after a write that invalidates an idle subscription (reactive.WriteThenReadDelay is 0 in half of the histories, 0.5-3 ms in the rest), plus 0-2 writes injected at named hook points; cases 1-4 are stress histories (600 rounds, thorough 4000: subscribe x4, one invalidating write and, within +-150 us, pipelined unsubscribes each followed by a same-id subscribe to another query); case 0 is a pinned history (unsubscribe during an in-flight run, id re-subscribed while the run's own asynchronous close is pending); " +
 		"cells notify by Invalidate-and-replace, Strobe, or per-read resources (seeded per cell); seeded pacing and yield-hook perturbation. " +
 		"Non-trivial = >= 2 writes logged while a subscription execution was in flight AND >= 1 non-initial update with a structural delta (reorder / removal / object, list or null replacement). Distinct = step-kind sequence + set of non-initial delta shapes.")
